@@ -21,7 +21,6 @@ import c01
 from symx import Stats, HarnessError, Inconclusive, SymInt, SymBool, bv, W, explore, sym_int, Path, rng
 
 PROP = 'C03'
-c01.CODE['jumpsc'] = [0x18, 0x02, 0x10, 0xFC, 0xC3, (c01.A + 2) % 256, (c01.A + 2) // 256, 0xCD, 0x00, 0x80]     # JR $+4 / DJNZ $-2 / JP A+2 / CALL 32768
 
 # annotated control files (the structural dimension): {n} = window offset helper as in C01
 ANNOTATED = [
